@@ -67,7 +67,7 @@ def setHist (st : State) (i : Nat) (h : List Op) : State := { st with hist := st
 /-- Decidable form of the hypotheses of `C04.apply_ops_lww` + `accepted_of_origin_window`
 (`C04.Window`) plus distinct stamps: the LWW oracle is only printed when they hold. -/
 def windowOk (ops : List Op) : Bool :=
-  ops.all (fun a => decide (a.ts < 18446744073709551616) && decide (Ts.fractional a.ts < 250) && decide (0 < Ts.dts a.ts)) &&
+  ops.all (fun a => decide (a.ts < 18446744073709551616) && decide (Ts.fractional a.ts < 250)) &&
   ops.all (fun a => ops.all (fun b =>
     (Ts.node a.ts != Ts.node b.ts) || decide (Ts.dts a.ts < Ts.dts b.ts + F)))
 
@@ -91,7 +91,7 @@ def timelyOk : List Op → Bool
   | o :: earlier => earlier.all (fun e => decide (Ts.dts e.ts < Ts.dts o.ts + F)) && timelyOk earlier
 
 def validOps (ops : List Op) : Bool :=
-  ops.all (fun a => decide (a.ts < 18446744073709551616) && decide (Ts.fractional a.ts < 250) && decide (0 < Ts.dts a.ts))
+  ops.all (fun a => decide (a.ts < 18446744073709551616) && decide (Ts.fractional a.ts < 250))
 
 def lwwLive (ops : List Op) : String :=
   let recs := (keysOf ops).filterMap (fun k => (Lww.lww ops k).map (fun r => (k, r)))
